@@ -186,10 +186,13 @@ impl Router {
                                 self.handlers.insert(new_receiver_id, handler);
                             },
                             RouterMsg::Shutdown(sender) => {
+                                // Stop for good: leave `run` (not just this batch of events),
+                                // dropping all handlers and receivers, before acknowledging.
+                                self.handlers.clear();
                                 sender
                                     .send(())
                                     .expect("Failed to send comfirmation of shutdown.");
-                                break;
+                                return;
                             },
                         }
                     },
@@ -197,8 +200,11 @@ impl Router {
                     IpcSelectionResult::MessageReceived(id, message) => {
                         self.handlers.get_mut(&id).unwrap()(message)
                     },
+                    // The `RouterProxy` was dropped without a shutdown: nobody can add routes
+                    // or stop us any more, so stop.
+                    IpcSelectionResult::ChannelClosed(id) if id == self.msg_wakeup_id => return,
                     IpcSelectionResult::ChannelClosed(id) => {
-                        let _ = self.handlers.remove(&id).unwrap();
+                        let _ = self.handlers.remove(&id);
                     },
                 }
             }
